@@ -4,14 +4,14 @@ EXTENDS LogStmt
 
 HeadsReal == {"bare", "qualified"}
 HeadsAll == {"bare", "qualified", "unconfigured", "prefix", "suffix", "othermod", "modplus1", "modminus1", "unicodeprefix", "unicodemod", "submod", "shortmod", "upper", "crateprefixed", "noliteral", "noargs",
-             "linecomment", "blockcomment", "doccomment", "instring", "instringopen", "rawstring", "nestedcomment", "nestedcomment3", "nolit_outer"}
+             "linecomment", "blockcomment", "doccomment", "instring", "instringopen", "rawstring", "nestedcomment", "nestedcomment3", "nolit_outer", "afterescchar", "pathtail_ws", "pathtail_nl", "pathtail_bare", "metavar"}
 TargetsAll == {"none", "plain", "comma", "escquote"}
 TargetsTwo == {"none", "plain"}
 TargetsCompile == TargetsAll \cup ExprTargets
 KvPlain == {"int", "id", "str", "strsemi", "short", "dbg", "debug", "disp", "display", "shortdbg"}
 KvFew == {"int", "strsemi", "short", "dbg"}
 KvParseOnly == {"err", "sval", "serde"}
-KvRef == {"ref=7", "ref=strkey", "ref=0", "ref=max", "ref=07", "ref=x", "ref:?=x", "ref=over", "ref=str", "ref=neg", "ref=hex", "ref=suffixed"}
+KvRef == {"ref=7", "ref=strkey", "ref=strkeycmt", "ref=0", "ref=max", "ref=07", "ref=x", "ref:?=x", "ref=over", "ref=str", "ref=neg", "ref=hex", "ref=suffixed"}
 KvRefFew == {"ref=7", "ref=x", "ref=over"}
 MsgAll == {"plain", "leadspace", "endbackslash", "onlybackslash", "slashes", "blockcm", "placeholders", "escquote", "unicode", "reflater", "empty",
            "validref", "validref0", "validrefmax", "bracketnoref", "unicodefirst"}
